@@ -121,6 +121,7 @@ def _ins_at(rng, node, item, after=None):
 
 
 CONV_DT = [None]      # datatype whose refusal the last injected fault causes
+EXPANDS_TO = [None]   # what the injected value expands to, when written with $
 
 
 def inject(rng, res, root, kind):
@@ -254,6 +255,14 @@ def _inject_in(rng, res, root, node, cont, path, kind):
         bad = [v for v in family.INVALID[c["datatype"]]]
         it[2] = rng.choice(bad)
         CONV_DT[0] = c["datatype"]
+        EXPANDS_TO[0] = None
+        if rng.random() < 0.3:
+            # the offending text reaches the datatype through substitution:
+            # what the error carries is the text that was converted
+            EXPANDS_TO[0] = it[2]
+            os.environ["ZCV_BADVAL"] = it[2]
+            it[2] = rng.choice(["$(ZCV_BADVAL)", "$(ZCV_BADVAL)$(ZCV_EMPTY)"])
+            os.environ["ZCV_EMPTY"] = ""
         return it, "key", "valueconv"
     if kind in ("unknown-type", "abstract-type", "not-admitted"):
         if kind == "unknown-type":
@@ -540,8 +549,10 @@ def judge(ctx, p, rng, dirpath):
     for kind in kinds:
         root = copy.deepcopy(p.tree)
         CONV_DT[0] = None
+        EXPANDS_TO[0] = None
         r = inject(rng, p.res, root, kind)
         conv_dt = CONV_DT[0]
+        expands_to = EXPANDS_TO[0]
         if r is None:
             res.count("not_applicable")
             continue
@@ -666,6 +677,7 @@ def judge(ctx, p, rng, dirpath):
             case = {"model": p.model, "files": layout.texts(),
                     "kind": kind, "expected_positions": want,
                     "stage": stage, "conv_datatype": conv_dt,
+                    "expanded_value": expands_to,
                     "mode": str(included)}
             res.sample("%s-%s" % (kind, included if isinstance(included, str)
                                   else "inc" if included else "main"),
@@ -751,6 +763,9 @@ def check(res, case, e, want, stage, target, kind):
         return
     if stage in ("keyconv", "valueconv"):
         text = target[1] if stage == "keyconv" else target[2]
+        if stage == "valueconv" and case.get("expanded_value") is not None:
+            text = case["expanded_value"]
+            res.count("offending_text_via_substitution")
         ok = (isinstance(e, ZConfig.DataConversionError)
               and getattr(e, "value", None) == text
               and isinstance(getattr(e, "exception", None), Exception))
